@@ -620,6 +620,10 @@ impl Reader {
           "DataFrag {:?} from {:?} lifespan exceeded. duration={:?} elapsed={:?}",
           seq_num, writer_guid, lifespan.duration, elapsed
         );
+        // The sample is never going to become available: every repair carries the same
+        // source timestamp. Skip its sequence number, so that a Reliable stream does not
+        // ask for it forever and hold back all the later samples of the writer.
+        self.skip_unusable_data(writer_guid, seq_num);
         return;
       }
     }
